@@ -39,6 +39,7 @@ def run(ctx, tier):
     ctx.rule("M3", "test and match agree on input plumbing")
     ctx.rule("M4", "compile classifies a component into a shortcut only under the guards that make the shortcut exact")
     ctx.rule("M5", "a result<T> that starts default-constructed is read only after it was assigned")
+    ctx.rule("M6", "the literal and the regular-expression form of 'protocol matches a special scheme' test the same schemes")
     cfgs = C.configs_for(tier, thorough=["release", "devchecks", "amalgamated"])
     fxs = C.load_configs(ctx, cfgs)
     for name in cfgs:
@@ -96,8 +97,61 @@ def check_default_results(ctx, fx):
     ctx.floor("M5", n, 4, "reads of default-constructed result<T> locals")
 
 
+def check_special_scheme_twins(ctx, fx):
+    """M6.  protocol_component_matches_special_scheme decides whether pathname patterns are compiled with hierarchical
+    or opaque options.  Its EXACT_MATCH arm (string comparisons) and its REGEXP arm (regex_match calls) must enumerate
+    the same scheme literals, otherwise the same protocol gives different pathname semantics depending on whether it
+    was compiled to a shortcut."""
+    fs = [f for f in fx.functions if f["qname"] == "ada::url_pattern_helpers::protocol_component_matches_special_scheme" and "blocks" in f]
+    if not fs:
+        ctx.broken("M6: protocol_component_matches_special_scheme not found")
+    for f in fs:
+        blk = {b["id"]: b for b in f["blocks"]}
+        entries = {}
+        for b in f["blocks"]:
+            lb = b.get("label", {})
+            if "case" in lb:
+                entries[lb["case"]["name"]] = b["id"]
+        lits = {}
+        for name, e in entries.items():
+            seen, st, found = set(), [e], []
+            while st:
+                x = st.pop()
+                if x in seen or (x != e and x in entries.values()):
+                    continue
+                seen.add(x)
+                b = blk[x]
+                nodes = []
+                for s_ in b["stmts"]:
+                    nodes += list(X.stmt_nodes(s_))
+                c = b["term"].get("cond")
+                if c is not None:
+                    nodes += list(X.walk(c))
+                for n in nodes:
+                    if n.get("k") == "lit" and n.get("str"):
+                        found.append(n["v"])
+                for e2 in b["succ"]:
+                    if not e2.get("pruned"):
+                        st.append(e2["to"])
+            lits[name] = sorted(set(found))
+        a, r = lits.get("EXACT_MATCH"), lits.get("REGEXP")
+        if a is None or r is None:
+            ctx.broken("M6: EXACT_MATCH / REGEXP arms not found in protocol_component_matches_special_scheme")
+        ctx.check("M6", "EXACT_MATCH and REGEXP arms enumerate the same schemes", a == r and len(a) >= 5, ", ".join(a),
+                  "the literal arm tests {%s} but the regular-expression arm tests {%s}: a protocol pattern for %s is special in one "
+                  "compiled form and not in the other" % (", ".join(a), ", ".join(r), ", ".join(sorted(set(a) ^ set(r)))),
+                  where=f["loc"].replace("/repo/", ""))
+        # the special schemes of the URL Standard other than file (file URLs get their own treatment in the constructor parser)
+        want = ["ftp", "http", "https", "ws", "wss"]
+        ctx.check("M6", "the enumerated schemes are the special schemes", a == want, ", ".join(a),
+                  "the arms enumerate {%s}; the special schemes (without file) are {%s}" % (", ".join(a), ", ".join(want)),
+                  where=f["loc"].replace("/repo/", ""))
+    ctx.floor("M6", len(fs), 1, "instantiations of protocol_component_matches_special_scheme")
+
+
 def check(ctx, fx):
     check_default_results(ctx, fx)
+    check_special_scheme_twins(ctx, fx)
     # ---- M1 -----------------------------------------------------------------------
     targets = []
     for nm in ("match", "test", "test_components", "exec", "has_regexp_groups", "get_protocol", "get_username",
